@@ -260,6 +260,8 @@ def run_pattern(solver, pattern, after_step=None):
                 solver.DoGlobalIteration(step[1])
             elif step[0] == "solve":
                 sols.append(solver.Solve())
+            elif step[0] == "local":
+                solver.DoLocalRefinement(step[1])
             else:
                 raise ValueError(step)
             if after_step is not None:
